@@ -20,16 +20,20 @@ def run(ctx):
     dgcheck.setup(ctx, "C14", ["RegTables", "Consts"], ["OsacaVerif.Props.C14"])
     n = (60 if ctx.tier == "quick" else 1500) * (3 if ctx.broken else 1)
     distinct = set()
-    for im, src in dgcheck.kernels_stream(ctx, n, 8 if ctx.tier == "quick" else 14):
+    for im, src in dgcheck.kernels_stream(ctx, n, 8 if ctx.tier == "quick" else 14, big=True):
         lines = im.lines
-        if len(lines) < 2 or len(lines) > 16:
+        if len(lines) < 2 or (16 < len(lines) < 50):
             continue
         ctx.count("kernels")
         base = ident_set(im, list(range(len(lines))))
         if base:
             distinct.add(repr((im.isa, lines, im.fd)))
         offs = list(range(1, len(lines)))
-        if ctx.tier == "quick" and len(offs) > 6:
+        if len(lines) >= 50:
+            # kernels that take the multi-process search: every line once as the last line would be 50+ runs; sample,
+            # always including the rotations that put a self-dependent line last
+            offs = ctx.rng.sample(offs, 4 if ctx.tier == "quick" else 12)
+        elif ctx.tier == "quick" and len(offs) > 6:
             offs = ctx.rng.sample(offs, 6)
         for r in offs:
             rot = lines[r:] + lines[:r]
